@@ -8,7 +8,10 @@ Import ListNotations.
    the harness judged the pair compatible, whether it judged that kinds of different classes are
    reached, and the deep structure found in the target
    afterwards (None: ConvertFrom returned an error) *)
-Record ccase := { c_from : gotype; c_to : gotype; c_val : val; c_compat : bool; c_other : bool; c_res : option val }.
+Record ccase := { c_from : gotype; c_to : gotype; c_val : val; c_compat : bool; c_other : bool; c_res : option val;
+                  (* None: the target was freshly allocated.  Some old: the target held `old` (deep
+                     structure, slices with their length and whole backing array) when ConvertFrom was called *)
+                  c_old : option dval }.
 
 (* equality of observed trees; maps are compared as finite maps (the harness lists entries sorted
    by key, the model in insertion order); the sign of a zero float key is not compared: Go keeps
@@ -29,10 +32,22 @@ Definition case_ok (c : cfg) (x : ccase) : bool :=
   Bool.eqb (compatb (c_from x) (c_to x)) (c_compat x) &&
   Bool.eqb (other_kind_reached (c_to x) (c_from x) (c_val x)) (c_other x) &&
   has_typeb (c_from x) (c_val x) &&
-  match convert c (c_from x) (c_to x) (c_val x), c_res x with
+  match (match c_old x with
+         | None => convert c (c_from x) (c_to x) (c_val x)
+         | Some old => convert_onto c (c_from x) (c_to x) (c_val x) old
+         end), c_res x with
   | COk v', Some o => val_equiv v' o
   | CErr, None => true
   | _, _ => false
+  end &&
+  (* the model of a fresh target is the model of a target holding zero values *)
+  match c_old x with
+  | None => match convert_onto c (c_from x) (c_to x) (c_val x) (dzero (c_to x)), c_res x with
+            | COk v', Some o => val_equiv v' o
+            | CErr, None => true
+            | _, _ => false
+            end
+  | Some _ => true
   end.
 
 Fixpoint bad_idx {A} (f : A -> bool) (l : list A) (i : nat) : list nat :=
@@ -46,8 +61,16 @@ Fixpoint bad_idx {A} (f : A -> bool) (l : list A) (i : nat) : list nat :=
 Definition source_says_defect : bool :=
   list_eqb String.eqb f_c20_map_calls ["key, k"%string; "key, w.MapIndex(k)"%string].
 
-(* index list of the cases on which model and implementation differ; second list: [0] when the
-   switch observed by the probe contradicts the source text *)
+(* the statement of convertMap that decides which map receives the entries (fact regenerated from
+   /repo): the pinned text keeps a map that is not nil, the repaired one never does *)
+Definition map_prepare_pinned : string := "if v.IsNil() { v.Set(reflect.MakeMapWithSize(v.Type(), l)) }".
+Definition map_prepare_repaired : string :=
+  "if v.CanSet() { v.Set(reflect.MakeMapWithSize(v.Type(), l)) } else { for _, k := range v.MapKeys() { v.SetMapIndex(k, reflect.Value{}) } }".
+Definition source_says_keeps : bool := String.eqb (nth 4 f_c20_map_stmts ""%string) map_prepare_pinned.
+
+(* index list of the cases on which model and implementation differ; second list: [0] / [1] when a
+   switch observed by the probes contradicts the source text *)
 Definition mismatches (c : cfg) (cs : list ccase) : list nat * list nat :=
   (bad_idx (case_ok c) cs 0,
-   if Bool.eqb (map_value_into_key c) source_says_defect then [] else [0%nat]).
+   (if Bool.eqb (map_value_into_key c) source_says_defect then [] else [0%nat]) ++
+   (if Bool.eqb (map_keeps_old_entries c) source_says_keeps then [] else [1%nat])).
